@@ -387,3 +387,73 @@ def forms_pass(ctx, ops):
         if z.algebra is not alg:
             ctx.violation('derived-algebra', {'route': nm}, 'the result belongs to the algebra of its operands', 'it belongs to another algebra object',
                           key=f'derived:owner:{nm}')
+    # (4) operands that belong to two equal but distinct Algebra objects (two constructor calls, dataclasses.replace of a
+    # field that does not take part in the comparison): the library accepts them as one algebra; the result is the product
+    for sig in ([1, 1, 1], [0, 1, 1]):
+        alg1 = make_algebra(sig)
+        twins = [('second-constructor-call', make_algebra(sig)), ('replace:pretty_blade', dataclasses.replace(alg1, pretty_blade='b'))]
+        for nm, alg2 in twins:
+            if not (alg1 == alg2):
+                ctx.count('twin-algebras-compare-unequal:' + nm)
+                continue
+            for op in ops:
+                if op not in BIN:
+                    continue
+                for _ in range(2 if ctx.quick else 8):
+                    kx, ky = key_tuples(rng, alg1.d, 2, ['small', 'grades'])
+                    kx, ky = (kx or [1])[:4], (ky or [2])[:4]
+                    vx = [Fraction(rng.randint(1, 9)) for _ in kx]
+                    vy = [Fraction(rng.randint(1, 9)) for _ in ky]
+                    a = MultiVector.fromkeysvalues(alg1, tuple(kx), list(vx))
+                    b2 = MultiVector.fromkeysvalues(alg2, tuple(ky), list(vy))
+                    b1 = MultiVector.fromkeysvalues(alg1, tuple(ky), list(vy))
+                    case = {'sig': sig, 'op': op, 'kx': kx, 'ky': ky, 'second_operand_from': nm}
+                    ctx.case(case, tag='twin-algebra')
+                    try:
+                        exp = mv_to_dict(BIN[op](a, b1))
+                    except ZeroDivisionError:
+                        continue
+                    try:
+                        got = mv_to_dict(BIN[op](a, b2))
+                        ok = all(not isinstance(v, MultiVector) for v in got.values()) and got == exp
+                    except Exception as e:
+                        got, ok = repr(e)[:200], False
+                    if not ok:
+                        ctx.violation('twin-algebra-operands', case, str(exp)[:300], str(got)[:300], key=f'{op}:twin-algebra')
+                        break
+    # (5) symbolic operands whose coefficients are not polynomial (roots and logarithms of products): the result coefficients are
+    # compared with the reference over the sign table *as functions*: exactly, after substituting negative numbers
+    import sympy
+    s_, t_, u_ = sympy.symbols('s t u')
+    coeffs = [sympy.sqrt(s_ * t_), sympy.sqrt(s_) * sympy.sqrt(t_), sympy.log(s_ * t_), (s_ * t_) ** sympy.Rational(3, 2), u_, s_ + 1]
+    points = [{s_: -1, t_: -4, u_: 3}, {s_: -9, t_: -1, u_: -2}, {s_: 4, t_: 9, u_: 5}]
+    alg = make_algebra([1, 1, -1])
+    S = alg.signs
+    for op in ops:
+        if op not in BIN or op not in REFBIN:
+            continue
+        for _ in range(3 if ctx.quick else 12):
+            kx, ky = key_tuples(rng, alg.d, 2, ['small', 'grades'])
+            kx, ky = (kx or [1])[:3], (ky or [2])[:3]
+            vx = [rng.choice(coeffs) for _ in kx]
+            vy = [rng.choice(coeffs) for _ in ky]
+            case = {'sig': [1, 1, -1], 'op': op, 'kx': kx, 'ky': ky, 'vx': [str(v) for v in vx], 'vy': [str(v) for v in vy]}
+            ctx.case(case, tag='symbolic-irrational')
+            try:
+                got = BIN[op](MultiVector.fromkeysvalues(alg, tuple(kx), list(vx)), MultiVector.fromkeysvalues(alg, tuple(ky), list(vy)))
+                got = dict(zip(got.keys(), got.values()))
+            except Exception as e:
+                ctx.violation('symbolic-irrational-raises', case, 'a multivector', repr(e)[:200], key=f'{op}:symbolic-irrational:raises')
+                continue
+            ref = REFBIN[op](S, dict(zip(kx, vx)), dict(zip(ky, vy)))
+            for pt in points:
+                bad = None
+                for k in set(ref) | set(got):
+                    dv = sympy.simplify(sympy.sympify(got.get(k, 0)).subs(pt) - sympy.sympify(ref.get(k, 0)).subs(pt))
+                    if dv != 0:
+                        bad = (k, str(got.get(k, 0)), str(ref.get(k, 0)))
+                        break
+                if bad:
+                    ctx.violation('symbolic-irrational', {**case, 'at': {str(a): b for a, b in pt.items()}, 'blade': bad[0]}, bad[2], bad[1],
+                                  key=f'{op}:symbolic-irrational')
+                    break
